@@ -81,7 +81,9 @@ Proof.
   destruct (po_mode o) eqn:Em; try apply tfi_trash_file.
   destruct acc; [|apply tfi_trash_file].
   eapply T_bind; [apply (safe_describe L Hplain')|]. intros d _.
-  eapply T_bind; [apply T_call_str; apply Hinp; reflexivity|]. intros reply _.
+  eapply T_bind with (Q' := fun _ => True).
+  { apply T_catch; [apply T_call_str; apply Hinp; reflexivity|]. intros e q He. destruct e; inversion He. aret. }
+  intros reply _.
   destruct (parse_user_reply reply); [apply tfi_trash_file|aret].
 Qed.
 End FromTfi.
